@@ -98,6 +98,13 @@ func checkError(obs gqlgen.Observed, fs []gqlgen.RefFailure, md gqlgen.Modes, qn
 	if len(sameCause) == 0 {
 		return "error-not-from-a-needed-failing-field", fmt.Sprintf("got %s; needed failures: %s", obs, js(fs))
 	}
+	if obs.Class == "custom" {
+		// handed back as it is: no path, and its own Error() text
+		if len(obs.Path) != 0 || obs.Full != "detail of "+sameCause[0].Msg {
+			return "safe-error-decorated", fmt.Sprintf("got %q", obs.Full)
+		}
+		return "", ""
+	}
 	if obs.Class == "safe" || obs.Class == "wrapped" {
 		if len(obs.Path) != 0 || obs.Full != obs.Text {
 			return "safe-error-decorated", fmt.Sprintf("got %q want %q", obs.Full, obs.Text)
@@ -131,7 +138,7 @@ func main() {
 	log.SetOutput(ioutil.Discard)
 	o := vh.ParseFlags()
 	run := vh.NewRun("C16", o)
-	run.Rule = "as C01 with 0-25% of resolver results failing (error / SafeError / WrapAsSafeError / ordinary error wrapping a safe one with %w / panic) under 2 execution-mode assignments x (scripted, FIFO, LIFO, goroutines) plus one subscribe over a fake JSONSocket; non-trivial = at least one needed resolver fails and the scripted run executed at least 3 work units, or at least two needed resolvers fail; distinct by query text + data + modes"
+	run.Rule = "as C01 with 0-25% of resolver results failing (error / SafeError / WrapAsSafeError / ordinary error wrapping a safe one with %w / user-defined SanitizedError with a public text other than its Error() text / panic) under 2 execution-mode assignments x (scripted, FIFO, LIFO, goroutines) plus one subscribe over a fake JSONSocket; non-trivial = at least one needed resolver fails and the scripted run executed at least 3 work units, or at least two needed resolvers fail; distinct by query text + data + modes"
 	r := vh.NewRng(o.Seed)
 
 	var cases []*gqlgen.Case
@@ -228,6 +235,9 @@ func main() {
 			for si, sc := range scheds {
 				obs := gqlgen.Exec(b, text, q.Vars, sc.s)
 				tag := fmt.Sprintf("modes#%d/%s", mi, sc.name)
+				if obs.Mutated != "" {
+					fail("execute-modifies-parsed-query", tag+": "+obs.Mutated)
+				}
 				switch {
 				case obs.Stage == "harness":
 					fail("escaped-panic-or-timeout", tag+": "+obs.String())
@@ -324,6 +334,13 @@ func checkWS(ws gqlgen.WSResult, fs []gqlgen.RefFailure, failing bool, fail func
 		if f.Kind == "safe" || f.Kind == "wrapped" {
 			continue
 		}
+		if f.Kind == "custom" {
+			// only its SanitizedError() text may be sent, never its Error() text
+			if strings.Contains(all, "detail of "+f.Msg) {
+				fail("ws-unsafe-text-leaked", fmt.Sprintf("Error() text of a custom sanitized error reached the socket: %s", all))
+			}
+			continue
+		}
 		if strings.Contains(all, f.Msg) {
 			fail("ws-unsafe-text-leaked", fmt.Sprintf("text of %s failure %q reached the socket: %s", f.Kind, f.Msg, all))
 		}
@@ -350,6 +367,9 @@ func checkWS(ws gqlgen.WSResult, fs []gqlgen.RefFailure, failing bool, fail func
 	ok := false
 	for _, f := range fs {
 		if (f.Kind == "safe" || f.Kind == "wrapped") && msg == f.Msg {
+			ok = true
+		}
+		if f.Kind == "custom" && msg == "public "+f.Msg {
 			ok = true
 		}
 		if (f.Kind == "err" || f.Kind == "panic" || f.Kind == "wrapsafe") && msg == generic {
